@@ -5,6 +5,7 @@ pub fn gen_case(profile: &str, rng: &mut Rng, out: &mut String) -> bool {
     match profile {
         "C01" => super::c01::gen_case(rng, out, false),
         "C03" => super::c03::gen_case(rng, out),
+        "C03W" => super::c03::gen_window_case(rng, out),
         "C07" => super::c01::gen_case(rng, out, true),
         _ => return false,
     }
